@@ -29,6 +29,7 @@ func (p1 *PanConfig) MergeSpoc(c2 deviceconf.Config) deviceconf.Config {
 			v1.Addresses = append(v1.Addresses, v2.Addresses...)
 			v1.AddressGroups = append(v1.AddressGroups, v2.AddressGroups...)
 			v1.Services = append(v1.Services, v2.Services...)
+			v1.ServiceGroups = append(v1.ServiceGroups, v2.ServiceGroups...)
 			// Add rules.
 			// Rules are prepended per default.
 			// Rules with attribute <APPEND> are appended.
